@@ -85,9 +85,9 @@ __CPROVER_ensures(__CPROVER_return_value==g_exit_active)
 
 /* ROW::guard_call -- the user's guard */
 _Bool ROW_guard_call(type_t row, fsm_t* fsm, event_t evt, SREF src, SREF tgt, slist_t all)
-__CPROVER_requires(g_phase==0 && !g_exc)                                          /*@ob C02.guard-first-and-once */
-__CPROVER_requires(ROW_INTERNAL || fsm->m_states[g_region]==ORACLE_GUARD)         /*@ob C19.guard-observes-source */
-__CPROVER_requires(ROW_INTERNAL || !has_pseudo_exit(T1) || g_exit_active)         /*@ob C09.exit-point-row-only-while-active */
+__CPROVER_requires(g_phase==0 && !g_exc)                                          /*@ob C02,C01.guard-first-and-once */
+__CPROVER_requires(ROW_INTERNAL || fsm->m_states[g_region]==ORACLE_GUARD)         /*@ob C19,C03.guard-observes-source */
+__CPROVER_requires(ROW_INTERNAL || !has_pseudo_exit(T1) || g_exit_active)         /*@ob C09,C01.exit-point-row-only-while-active */
 __CPROVER_requires(g_guard_calls < 1000)
 __CPROVER_assigns(g_phase, g_exc, g_guard_calls)
 __CPROVER_ensures(g_guard_calls==__CPROVER_old(g_guard_calls)+1)
@@ -97,20 +97,20 @@ __CPROVER_ensures(g_phase == ((!g_exc && __CPROVER_return_value) ? 1 : 0))
 /* check_guard(): sibling static member of the row; its own unit proves it against this contract */
 _Bool check_guard(fsm_t* fsm, event_t evt)
 __CPROVER_requires(__CPROVER_is_fresh(fsm,sizeof(*fsm)) && (ROW_INTERNAL || (0<=g_region && g_region<NR_CAP && 0<=policy && policy<=3)))
-__CPROVER_requires(g_phase==0 && !g_exc)                                          /*@ob C02.guard-first-and-once */
-__CPROVER_requires(ROW_INTERNAL || fsm->m_states[g_region]==ORACLE_GUARD)         /*@ob C19.guard-observes-source */
-__CPROVER_requires(ROW_INTERNAL || !has_pseudo_exit(T1) || g_exit_active)         /*@ob C09.exit-point-row-only-while-active */
+__CPROVER_requires(g_phase==0 && !g_exc)                                          /*@ob C02,C01.guard-first-and-once */
+__CPROVER_requires(ROW_INTERNAL || fsm->m_states[g_region]==ORACLE_GUARD)         /*@ob C19,C03.guard-observes-source */
+__CPROVER_requires(ROW_INTERNAL || !has_pseudo_exit(T1) || g_exit_active)         /*@ob C09,C01.exit-point-row-only-while-active */
 __CPROVER_requires(g_guard_calls < 1000)
 __CPROVER_assigns(g_phase, g_exc, g_guard_calls)
-__CPROVER_ensures(g_guard_calls==__CPROVER_old(g_guard_calls)+1)                  /*@ob C01.guard-evaluated-exactly-once-per-row */
+__CPROVER_ensures(g_guard_calls==__CPROVER_old(g_guard_calls)+1)                  /*@ob C01,C02.guard-evaluated-exactly-once-per-row */
 __CPROVER_ensures(g_phase == ((!g_exc && __CPROVER_return_value) ? 1 : 0))
 ;
 
 void execute_exit(type_t st, stref_t s, event_t evt, fsm_t* fsm)
-__CPROVER_requires(g_phase==PH_BEFORE_EXIT && !g_exc)                             /*@ob C02.exit-after-guard-before-action */
-__CPROVER_requires(st==current_state_type)                                        /*@ob C02.exit-of-the-source-state */
-__CPROVER_requires(fsm->m_states[g_region]==ORACLE_EXIT)                          /*@ob C19.exit-observes-policy-state */
-__CPROVER_requires(g_act[g_cur]==1)                                                 /*@ob C03.exit-only-of-an-active-state */
+__CPROVER_requires(g_phase==PH_BEFORE_EXIT && !g_exc)                             /*@ob C02,C19.exit-after-guard-before-action */
+__CPROVER_requires(st==current_state_type)                                        /*@ob C02,C03.exit-of-the-source-state */
+__CPROVER_requires(fsm->m_states[g_region]==ORACLE_EXIT)                          /*@ob C19,C03.exit-observes-policy-state */
+__CPROVER_requires(g_act[g_cur]==1)                                                 /*@ob C03,C02.exit-only-of-an-active-state */
 __CPROVER_assigns(g_phase, g_exc, g_act[g_cur])
 __CPROVER_ensures(g_exc || (g_phase==2 && g_act[g_cur]==0))
 __CPROVER_ensures(!g_exc || (g_phase==__CPROVER_old(g_phase)))
@@ -118,8 +118,8 @@ __CPROVER_ensures(!g_exc || (g_phase==__CPROVER_old(g_phase)))
 
 HandledEnum ROW_action_call(type_t row, fsm_t* fsm, event_t evt, SREF src, SREF tgt, slist_t all)
 __CPROVER_requires(!g_exc)
-__CPROVER_requires(ROW_INTERNAL ? (g_phase==(HAS_GUARD?1:0)) : g_phase==2)        /*@ob C02.action-after-exit-before-entry */
-__CPROVER_requires(ROW_INTERNAL || fsm->m_states[g_region]==ORACLE_ACTION)        /*@ob C19.action-observes-policy-state */
+__CPROVER_requires(ROW_INTERNAL ? (g_phase==(HAS_GUARD?1:0)) : g_phase==2)        /*@ob C02,C19.action-after-exit-before-entry */
+__CPROVER_requires(ROW_INTERNAL || fsm->m_states[g_region]==ORACLE_ACTION)        /*@ob C19,C03.action-observes-policy-state */
 __CPROVER_assigns(g_phase, g_exc)
 __CPROVER_ensures(g_exc || g_phase==3)
 __CPROVER_ensures(!g_exc || g_phase==__CPROVER_old(g_phase))
@@ -127,10 +127,10 @@ __CPROVER_ensures(__CPROVER_return_value==HANDLED_TRUE || __CPROVER_return_value
 ;
 
 void convert_event_and_execute_entry(type_t st, type_t tgt, stref_t s, event_t evt, fsm_t* fsm)
-__CPROVER_requires(g_phase==PH_BEFORE_ENTRY && !g_exc)                            /*@ob C02.entry-last */
-__CPROVER_requires(st==next_state_type && tgt==T2)                                /*@ob C02.entry-of-the-target-state */
-__CPROVER_requires(fsm->m_states[g_region]==ORACLE_ENTRY)                         /*@ob C19.entry-observes-policy-state */
-__CPROVER_requires(g_act[g_nxt]==0)                                                 /*@ob C03.entry-only-of-an-inactive-state */
+__CPROVER_requires(g_phase==PH_BEFORE_ENTRY && !g_exc)                            /*@ob C02,C19.entry-last */
+__CPROVER_requires(st==next_state_type && tgt==T2)                                /*@ob C02,C03.entry-of-the-target-state */
+__CPROVER_requires(fsm->m_states[g_region]==ORACLE_ENTRY)                         /*@ob C19,C03.entry-observes-policy-state */
+__CPROVER_requires(g_act[g_nxt]==0)                                                 /*@ob C03,C02.entry-only-of-an-inactive-state */
 __CPROVER_assigns(g_phase, g_exc, g_act[g_nxt])
 __CPROVER_ensures(g_exc || (g_phase==4 && g_act[g_nxt]==1))
 __CPROVER_ensures(!g_exc || g_phase==__CPROVER_old(g_phase))
@@ -150,15 +150,15 @@ ROW_PRE
 __CPROVER_requires(fsm->m_states[region_index]==CUR && state==CUR)       /* WF: the cell of the active state is the one dispatched (C06 unit) */
 __CPROVER_requires(g_act[g_cur]==1 && (NXT==CUR || g_act[g_nxt]==0))        /* WF ledger (C03) */
 __CPROVER_assigns(g_phase, g_exc, g_guard_calls, fsm->m_states[region_index], g_act[g_cur], g_act[g_nxt])
-__CPROVER_ensures((has_pseudo_exit(T1) && !g_exit_active) ==> (__CPROVER_return_value==HANDLED_FALSE && g_phase==0 && g_guard_calls==0 && fsm->m_states[region_index]==CUR))  /*@ob C09.exit-point-row-inert-while-inactive */
-__CPROVER_ensures((!g_exc && __CPROVER_return_value==HANDLED_GUARD_REJECT) ==> (HAS_GUARD && g_phase==0 && fsm->m_states[region_index]==CUR && g_act[g_cur]==1))               /*@ob C02.rejected-guard-changes-nothing */
-__CPROVER_ensures((!g_exc && (__CPROVER_return_value==HANDLED_TRUE || __CPROVER_return_value==HANDLED_DEFERRED)) ==> g_phase==4)                                             /*@ob C02.taken-runs-exit-action-entry */
-__CPROVER_ensures((!g_exc && (__CPROVER_return_value==HANDLED_TRUE || __CPROVER_return_value==HANDLED_DEFERRED)) ==> fsm->m_states[region_index]==NXT)                       /*@ob C19.after-transition-target-is-active */
-__CPROVER_ensures((!g_exc && (__CPROVER_return_value==HANDLED_TRUE || __CPROVER_return_value==HANDLED_DEFERRED)) ==> (g_act[g_nxt]==1 && (NXT==CUR || g_act[g_cur]==0)))          /*@ob C03.ledger-agrees-with-active-state */
+__CPROVER_ensures((has_pseudo_exit(T1) && !g_exit_active) ==> (__CPROVER_return_value==HANDLED_FALSE && g_phase==0 && g_guard_calls==0 && fsm->m_states[region_index]==CUR))  /*@ob C09,C01,C02.exit-point-row-inert-while-inactive */
+__CPROVER_ensures((!g_exc && __CPROVER_return_value==HANDLED_GUARD_REJECT) ==> (HAS_GUARD && g_phase==0 && fsm->m_states[region_index]==CUR && g_act[g_cur]==1))               /*@ob C02,C03,C01.rejected-guard-changes-nothing */
+__CPROVER_ensures((!g_exc && (__CPROVER_return_value==HANDLED_TRUE || __CPROVER_return_value==HANDLED_DEFERRED)) ==> g_phase==4)                                             /*@ob C02,C03.taken-runs-exit-action-entry */
+__CPROVER_ensures((!g_exc && (__CPROVER_return_value==HANDLED_TRUE || __CPROVER_return_value==HANDLED_DEFERRED)) ==> fsm->m_states[region_index]==NXT)                       /*@ob C19,C03,C02.after-transition-target-is-active */
+__CPROVER_ensures((!g_exc && (__CPROVER_return_value==HANDLED_TRUE || __CPROVER_return_value==HANDLED_DEFERRED)) ==> (g_act[g_nxt]==1 && (NXT==CUR || g_act[g_cur]==0)))          /*@ob C03,C02.ledger-agrees-with-active-state */
 __CPROVER_ensures(!g_exc ==> (__CPROVER_return_value==HANDLED_TRUE || __CPROVER_return_value==HANDLED_DEFERRED || __CPROVER_return_value==HANDLED_GUARD_REJECT || __CPROVER_return_value==HANDLED_FALSE))
 __CPROVER_ensures(!g_exc ==> (__CPROVER_return_value==HANDLED_FALSE ==> (has_pseudo_exit(T1) && !g_exit_active)))
-__CPROVER_ensures(g_guard_calls <= 1)                                                                                                                                         /*@ob C01.guard-at-most-once */
-__CPROVER_ensures(g_exc ==> (g_phase<4 && fsm->m_states[region_index]==ORACLE_AT_PHASE(g_phase)))                                                                            /*@ob C12.throw-leaves-policy-state */
+__CPROVER_ensures(g_guard_calls <= 1)                                                                                                                                         /*@ob C01,C02.guard-at-most-once */
+__CPROVER_ensures(g_exc ==> (g_phase<4 && fsm->m_states[region_index]==ORACLE_AT_PHASE(g_phase)))                                                                            /*@ob C12,C03.throw-leaves-policy-state */
 ;
 
 /* internal rows (irow_ family, internal_ family): no state change, no exit/entry */
@@ -166,8 +166,8 @@ HandledEnum irow_execute(fsm_t* fsm, int region_index, int state, event_t evt)
 __CPROVER_requires(__CPROVER_is_fresh(fsm,sizeof(*fsm)))
 __CPROVER_requires(g_phase==0 && !g_exc && g_guard_calls==0)
 __CPROVER_requires(ROW_SM_INTERNAL || state==CUR)
-__CPROVER_assigns(g_phase, g_exc, g_guard_calls)                                                     /*@ob C02.internal-row-frame */
-__CPROVER_ensures((!g_exc && __CPROVER_return_value==HANDLED_GUARD_REJECT) ==> (HAS_GUARD && g_phase==0))    /*@ob C02.rejected-guard-changes-nothing */
-__CPROVER_ensures((!g_exc && __CPROVER_return_value!=HANDLED_GUARD_REJECT) ==> (g_phase==(HAS_ACTION?3:(HAS_GUARD?1:0)) && (__CPROVER_return_value==HANDLED_TRUE || __CPROVER_return_value==HANDLED_DEFERRED)))  /*@ob C02.internal-row-guard-then-action */
-__CPROVER_ensures(g_guard_calls <= 1)                                                                /*@ob C01.guard-at-most-once */
+__CPROVER_assigns(g_phase, g_exc, g_guard_calls)                                                     /*@ob C02,C03.internal-row-frame */
+__CPROVER_ensures((!g_exc && __CPROVER_return_value==HANDLED_GUARD_REJECT) ==> (HAS_GUARD && g_phase==0))    /*@ob C02,C03,C01.rejected-guard-changes-nothing */
+__CPROVER_ensures((!g_exc && __CPROVER_return_value!=HANDLED_GUARD_REJECT) ==> (g_phase==(HAS_ACTION?3:(HAS_GUARD?1:0)) && (__CPROVER_return_value==HANDLED_TRUE || __CPROVER_return_value==HANDLED_DEFERRED)))  /*@ob C02,C01.internal-row-guard-then-action */
+__CPROVER_ensures(g_guard_calls <= 1)                                                                /*@ob C01,C02.guard-at-most-once */
 ;
